@@ -99,6 +99,7 @@ fn fault_opts() -> GraphOpts {
         wide: true,
         mega: false,
         symlinks: false,
+        read_above: false,
     }
 }
 
